@@ -1293,12 +1293,28 @@ def c09(tier):
         [{"kind": "hash", "uniform": True, "collide": True}],
         [{"kind": "hash", "uniform": True, "collide": True, "comp": "lz4", "threshold": 0}, {"kind": "hash"}],
         [{"kind": "rc", "uniform": True, "collide": True}],
+        # growth triggered from a reindex batch: 80 keys share 18 hash bits, two generations pending at once
+        [{"kind": "hash", "uniform": True, "collide": True, "deep": True}],
     ]
-    ntr = 9 if thorough else 3
+    ntr = 12 if thorough else 4
+    growth = {"reindex_records": 0, "traces_with_growth": 0, "traces_with_two_pending_generations": 0, "max_index_bits": 16}
     for j in range(ntr):
         cols = colsets[j % len(colsets)]
         record_and_validate(rep, cols, 80, 3, 2200 if thorough else 1000, SEED * 61 + j, crash=2, label="c09t%d" % j,
                             small=True, dumps=True)
+        nre, gens = 0, set()
+        for e in vcore.read_ndjson(os.path.join(vcore.scratch(), "trace_c09t%d.ndjson" % j)):
+            if e.get("e") == "ReindexRecord":
+                nre += 1
+            elif e.get("e") == "Dump" and e.get("kind") == "hash":
+                gens.add(tuple(e.get("gens", [])))
+        growth["reindex_records"] += nre
+        growth["traces_with_growth"] += 1 if any(g and max(g) > 16 for g in gens) else 0
+        growth["traces_with_two_pending_generations"] += 1 if (any(len(g) >= 2 for g in gens) and any(g and max(g) >= 18 for g in gens)) else 0
+        growth["max_index_bits"] = max([growth["max_index_bits"]] + [max(g) for g in gens if g])
+    rep.extra["index_growth_in_traces"] = growth
+    if growth["traces_with_growth"] < ntr - 1 or growth["traces_with_two_pending_generations"] == 0:
+        raise ToolError("C09 traces did not grow the index (%s): vacuous" % growth)
     return rep.finish()
 
 
